@@ -210,6 +210,9 @@ func combineTypes(types []*Type) *Type {
 	combinedT := types[0]
 	for _, t := range types[1:] {
 		if combinedT.Equals(t) {
+			if t.Fixed {
+				combinedT = t // a variable among the elements: the type can no longer be converted
+			}
 			continue
 		}
 		// types are not equal, ensure that composite types can be combined
